@@ -16,8 +16,10 @@ One node, several epochs. Transcribes
   its `activation_block` at that moment) and `node/components/bft/src/lib.rs` `Config::run` (43-48: waits until
   `first_block.prev()` is **persisted**; 57-70: the teardown task — expiration known, expiration block persisted,
   `s.cancel()`);
-* `node/components/bft/src/v2_chonky_bft/mod.rs` `StateMachine::start` (83-117: a backup of another epoch is
-  replaced by the default state), `block.rs` `backup_state` (the single durable `ReplicaState`, tagged with
+* `node/components/bft/src/v2_chonky_bft/mod.rs` `StateMachine::start` (83-127: a backup of a LATER epoch makes the
+  instance stop — `Err(Canceled)`, which `Config::run` maps to `Ok(())` like its teardown — fix a8b4c3e / finding F13;
+  a backup of an EARLIER epoch is replaced by the default state; `restoreLegacy` / `stepLegacy` are the rule before
+  the fix: any other epoch's backup is replaced by the default state), `block.rs` `backup_state` (the single durable `ReplicaState`, tagged with
   `config.epoch`), and of the handlers only what decides *whether* a vote is signed and *what is made durable
   before*: the view/phase gate and the `wait_until_persisted(prev)` + `verify_payload(number, epoch)` of
   `on_proposal` (proposal.rs:92-100, 181-208), `start_timeout`, `start_new_view` (view, phase, backup, send);
@@ -219,12 +221,15 @@ structure Node where
   lastBackup : Nat → Option RState
   /-- ghost: every vote signed, over all process lives, most recent first -/
   signed : List Signed
+  /-- ghost: since the instance of epoch `e` of this process life was spawned, an instance of a later epoch has made
+  a durable write -/
+  overtaken : Nat → Bool
 
 /-- A freshly installed node (`next` = `persisted().next()` of the storage it is started on). -/
 def Node.init (static : Option (Nat × Nat)) (next : Nat) : Node :=
   { static := static, sched := mgrNew static, cur := 0, runnerUp := false, persistedNext := next,
     queuedNext := next, slot := none, inst := fun _ => .absent, first := fun _ => 0,
-    lastBackup := fun _ => none, signed := [] }
+    lastBackup := fun _ => none, signed := [], overtaken := fun _ => false }
 
 inductive Ev
   | runnerInit (last : LastKind) (act com : Nat)
@@ -256,7 +261,8 @@ def write (s : Node) (e view : Nat) (phase : Phase) (sg : Option Signed) : Node 
   { setInst (backup s e view phase) e (.running view phase) with
     signed := match sg with
       | some x => x :: s.signed
-      | none => s.signed }
+      | none => s.signed
+    overtaken := fun x => if x < e then true else s.overtaken x }
 
 /-- `get_state`: the stored state, or the default one if nothing was ever stored. -/
 def stored (slot : Option RState) : RState :=
@@ -264,10 +270,18 @@ def stored (slot : Option RState) : RState :=
   | none => RState.default
   | some b => b
 
-/-- What `StateMachine::start` of epoch `e` restores: the backup if it is tagged with `e`, else the default state. -/
+/-- `StateMachine::start` of epoch `e` before fix a8b4c3e: the backup if it is tagged with `e`, else the default state. -/
+def restoreLegacy (slot : Option RState) (e : Nat) : IStatus :=
+  let b := stored slot
+  if b.epoch = e then .running b.view b.phase
+  else .running RState.default.view RState.default.phase
+
+/-- `StateMachine::start` of epoch `e`: the backup if it is tagged with `e`; a backup of a later epoch ends the
+instance (`Err(Canceled)` → `Config::run` returns `Ok(())`); a backup of an earlier epoch → the default state. -/
 def restore (slot : Option RState) (e : Nat) : IStatus :=
   let b := stored slot
   if b.epoch = e then .running b.view b.phase
+  else if e < b.epoch then .done
   else .running RState.default.view RState.default.phase
 
 /-- The wait at the head of `Config::run`: `first_block.prev()` is `None`, or that block is persisted. -/
@@ -276,9 +290,10 @@ def startReady (first persistedNext : Nat) : Bool :=
   | 0 => true
   | p + 1 => decide (p < persistedNext)
 
-/-- The view / phase gate of `on_proposal` (an `Err(Old)` otherwise). -/
+/-- The view / phase gate of `on_proposal` (an `Err(Old)` otherwise). The view of a proposal is the successor of its
+justification's view (`ProposalJustification::view`), hence at least 1. -/
 def proposalFresh (cv : Nat) (p : Phase) (view : Nat) : Bool :=
-  !(decide (view < cv) || (decide (view = cv) && decide (p ≠ .prepare)))
+  decide (1 ≤ view) && !(decide (view < cv) || (decide (view = cv) && decide (p ≠ .prepare)))
 
 /-- `wait_until_persisted(prev)` then the epoch guard, for a proposal carrying a new block `n`. -/
 def newBlockOk (s : Node) (e n : Nat) : Bool :=
@@ -290,8 +305,9 @@ def proposalOk (s : Node) (e : Nat) (number : Option Nat) : Bool :=
   | none => true
   | some n => newBlockOk s e n
 
-/-- One atomic event. `none` = the event is not enabled in this state (or the schedule task panicked). -/
-def step (s : Node) : Ev → Option Node
+/-- One atomic event. `none` = the event is not enabled in this state (or the schedule task panicked).
+`legacy` selects the `start` rule of before fix a8b4c3e. -/
+def stepG (legacy : Bool) (s : Node) : Ev → Option Node
   | .runnerInit last act com =>
     if s.runnerUp || s.static.isSome then none else
     let r := runnerInit s.sched last act com
@@ -303,11 +319,16 @@ def step (s : Node) : Ev → Option Node
     | .panic => none
   | .spawn e =>
     match s.inst e, schedOf s.sched e with
-    | .absent, some l => some { setInst s e .waiting with first := fun x => if x = e then l.act else s.first x }
+    | .absent, some l =>
+      some { setInst s e .waiting with first := fun x => if x = e then l.act else s.first x,
+                                       overtaken := fun x => if x = e then false else s.overtaken x }
     | _, _ => none
   | .start e =>
     match s.inst e with
-    | .waiting => if startReady (s.first e) s.persistedNext then some (setInst s e (restore s.slot e)) else none
+    | .waiting =>
+      if startReady (s.first e) s.persistedNext then
+        some (setInst s e (if legacy then restoreLegacy s.slot e else restore s.slot e))
+      else none
     | _ => none
   | .timeout e =>
     match s.inst e with
@@ -344,7 +365,13 @@ def step (s : Node) : Ev → Option Node
     | _ => some (setInst s e .done)
   | .crash =>
     some { s with sched := mgrNew s.static, cur := 0, runnerUp := false, queuedNext := s.persistedNext,
-                  inst := fun _ => .absent }
+                  inst := fun _ => .absent, overtaken := fun _ => false }
+
+/-- the code as it is (with fix a8b4c3e) -/
+def step (s : Node) (ev : Ev) : Option Node := stepG false s ev
+
+/-- the code before fix a8b4c3e -/
+def stepLegacy (s : Node) (ev : Ev) : Option Node := stepG true s ev
 
 /-- Runs a list of events; `none` as soon as one is not enabled. -/
 def run (s : Node) : List Ev → Option Node
